@@ -259,6 +259,10 @@ func scenFaults(rep *Report, tier string, seed int64) {
 // shortPath keeps the outermost and innermost function of a call path.
 func shortPath(p string) string {
 	parts := strings.Split(p, ">")
+	// everything under NullifyBurnAddress is one call site: its caller discards the result
+	if parts[0] == "NullifyBurnAddress" {
+		return parts[0]
+	}
 	if len(parts) <= 2 {
 		return p
 	}
@@ -277,7 +281,7 @@ func faultEra(a Acts, h uint32) string {
 
 func reportFault(rep *Report, s Setup, ref *faultRef, seed int64, h uint32, what, sigBase string, dump []string, msg string, want []string) {
 	if msg != "" {
-		path := WriteReplay(rep.Property, "faults", Replay{Property: rep.Property, Scenario: "faults", Seed: seed, Setup: s,
+		path := WriteReplay(rep.Property, "faults-"+fileSafe(sigBase), Replay{Property: rep.Property, Scenario: "faults", Seed: seed, Setup: s,
 			What: "after a single transient failure of " + what + " the daemon does not recover", Detail: []string{msg}, Blocks: ChainJSON(ref.All)})
 		effect := "stuck"
 		if strings.Contains(msg, "panic:") {
@@ -291,7 +295,7 @@ func reportFault(rep *Report, s Setup, ref *faultRef, seed int64, h uint32, what
 		if i := indexOf(diff, "impl=\""); i >= 0 && len(diff) > i+8 {
 			table = diff[i+6 : i+8]
 		}
-		path := WriteReplay(rep.Property, "faults", Replay{Property: rep.Property, Scenario: "faults", Seed: seed, Setup: s,
+		path := WriteReplay(rep.Property, "faults-"+fileSafe(sigBase), Replay{Property: rep.Property, Scenario: "faults", Seed: seed, Setup: s,
 			What: "a single transient failure of " + what + " changed the final ledger", Detail: []string{diff}, Blocks: ChainJSON(ref.All)})
 		_ = table
 		rep.Violate("faults:ledger-differs:"+sigBase, what+": "+diff, path)
@@ -308,3 +312,13 @@ func indexOf(s, sub string) int {
 }
 
 func init() { scenarios["faults"] = scenFaults }
+
+func fileSafe(s string) string {
+	out := []byte(s)
+	for i, c := range out {
+		if !(c >= 'a' && c <= 'z' || c >= 'A' && c <= 'Z' || c >= '0' && c <= '9' || c == '-' || c == '.') {
+			out[i] = '_'
+		}
+	}
+	return string(out)
+}
